@@ -19,6 +19,7 @@ Stmt     = ["yield", Struct]
          | ["read", name]
          | ["ret", mode]                     early return / result()
          | ["orphan", Leaf]                  create a future, never yield it
+         | ["cancelbatch", kind]             cancel the kind's currently collecting batch (user-level cancel())
          | ["syncitem", site, kind, key]     item = request(); item.value()  (flushes its batch directly)
          | ["probe", what]
 Struct   = ["leaf", Leaf] | ["tuple", [Struct]] | ["list", [Struct]]
@@ -186,6 +187,8 @@ def exec_block(rt, fr, block):
         elif op == "sync":
             v = rt.sync_call(fr, st)
             fr.received.append(("sync", v))
+        elif op == "cancelbatch":
+            rt.cancel_batch(fr, st)
         elif op == "syncitem":
             v = rt.sync_item(fr, st)
             fr.received.append(("syncitem", v))
